@@ -336,6 +336,22 @@ type structGen struct {
 	unexported     bool
 	withTime       bool
 	leafRules      func(kind string, v desc.V) string
+	extraTags      []string // further tag names under which fields carry (other) rule sets (C08)
+}
+
+// addExtraTags gives a scalar / slice field rule sets under the extra tag names.
+func (g *structGen) addExtraTags(f *desc.F, kind string, v desc.V) {
+	for _, et := range g.extraTags {
+		if rapid.IntRange(0, 3).Draw(g.t, "extraTag") == 0 {
+			continue
+		}
+		if r := g.leafRules(kind, v); r != "" {
+			if f.Tags == nil {
+				f.Tags = map[string]string{}
+			}
+			f.Tags[et] = r
+		}
+	}
 }
 
 var cheapScalarKinds = []string{"string", "string", "string", "int", "int32", "int64", "int8", "uint", "uint8", "uint32", "float64", "float32", "bool"}
@@ -347,6 +363,7 @@ func (g *structGen) scalarField(name string) (desc.F, desc.V) {
 	if r := g.leafRules(kind, v); r != "" || rapid.IntRange(0, 5).Draw(g.t, "emptyTag") == 0 {
 		f.Tags = map[string]string{g.tag: r}
 	}
+	g.addExtraTags(&f, kind, v)
 	return f, v
 }
 
@@ -361,6 +378,7 @@ func (g *structGen) sliceField(name string) (desc.F, desc.V) {
 	if r := g.leafRules("slice", v); r != "" {
 		f.Tags = map[string]string{g.tag: r}
 	}
+	g.addExtraTags(&f, "slice", v)
 	return f, v
 }
 
@@ -490,6 +508,14 @@ func (g *structGen) containerField(name string, depth int) (desc.F, desc.V) {
 	f := desc.F{Name: name, T: ty}
 	if mark := rapid.SampledFrom(g.containerMarks).Draw(g.t, "mark"); mark != "-" {
 		f.Tags = map[string]string{g.tag: mark}
+	}
+	for _, et := range g.extraTags {
+		if mark := rapid.SampledFrom(g.containerMarks).Draw(g.t, "markExtra"); mark != "-" {
+			if f.Tags == nil {
+				f.Tags = map[string]string{}
+			}
+			f.Tags[et] = mark
+		}
 	}
 	return f, v
 }
